@@ -21,3 +21,4 @@ pub mod defgen;
 pub mod fssnap;
 pub mod pki_tsa;
 pub mod iokit;
+pub mod hostile;
